@@ -736,6 +736,291 @@ Definition tr_restart : list event := [
 
 Local Close Scope N_scope.
 (* the state after the first n events of a trace (None if the model rejects one of them) *)
+(* harness program (acquire_start on a camera, then on a storage device, that failed and was not configured since: refused
+   before the device is touched; a configure re-arms it):
+ring 600
+filtring 600
+seed 5
+cam 0 w=4 h=3 type=1 trig=0 pace=1
+init
+cfg 0 cam=A sto=A n=4 avg=0 delay=0
+configure
+camfail 0 1
+start
+yield 60
+stop
+start
+state
+stofail 0 0
+configure
+start
+yield 60
+stop
+start
+state
+configure
+start
+yield 60
+stop
+state
+shutdown *)
+Definition tr_unarmed : list event := [
+  EvS false ACli (DOpenCam 1);
+  EvS false ACli (DSetCam 1);
+  EvS false ACli (DOpenSto 2);
+  EvS false ACli (DSetSto 2);
+  EvG (GConfigure true false 4 0);
+  EvG GStartCall;
+  EvS false ACli (DStoStart 2 true);
+  EvS false ACli (Accept true);
+  EvS false ACli (RMapEnter RdSink);
+  EvS false ACli (RMap RdSink []);
+  EvS false ACli (RUnmap RdSink 0);
+  EvS false ACli (Spawn RSink);
+  EvS false ASink (RMapEnter RdSink);
+  EvS false ACli (Spawn RFilt);
+  EvS false ACli (DCamStart 1 true 2);
+  EvS false ACli (Spawn RSrc);
+  EvG (GStartRet true);
+  EvS false ASink (RMap RdSink []);
+  EvS false ASink (RUnmap RdSink 0);
+  EvS false ASrc (WMapEnter);
+  EvS false ASrc (WMap true);
+  EvS false ASrc (DGetFrame 1 (Some (0, 2, 32212516913)));
+  EvS false ASink (RMapEnter RdSink);
+  EvS false ASink (RMap RdSink []);
+  EvS false ASink (RUnmap RdSink 0);
+  EvS false ASink (RMapEnter RdSink);
+  EvS false ASink (RMap RdSink []);
+  EvS false ASink (RUnmap RdSink 0);
+  EvS false ASink (RMapEnter RdSink);
+  EvS false ASrc (Commit true (mkF 2 0 0 32212516913));
+  EvS false ASrc (WMapEnter);
+  EvS false ASrc (WMap true);
+  EvS false ASink (RMap RdSink [(mkF 2 0 0 32212516913)]);
+  EvS false ASrc (DGetFrame 1 None);
+  EvS false ASink (DAppend 2 true [(mkF 2 0 0 32212516913)]);
+  EvS false ASrc (DCamStop 1);
+  EvS false ASrc (CbStopFilter);
+  EvS false ASink (RUnmap RdSink 1);
+  EvS false ASink (RMapEnter RdSink);
+  EvS false ASink (RMap RdSink []);
+  EvS false ASink (RUnmap RdSink 0);
+  EvS false ASink (RMapEnter RdSink);
+  EvS false ASink (RMap RdSink []);
+  EvS false ASink (RUnmap RdSink 0);
+  EvS false ASink (RMapEnter RdSink);
+  EvS false AFilt (Exit RFilt);
+  EvS false ASrc (Joined RFilt);
+  EvS false ASrc (CbStopSink);
+  EvS false ASrc (Exit RSrc);
+  EvS false ASink (RMap RdSink []);
+  EvS false ASink (RUnmap RdSink 0);
+  EvS false ASink (RMapEnter RdSink);
+  EvS false ASink (RMap RdSink []);
+  EvS false ASink (RUnmap RdSink 0);
+  EvS false ASink (DStoStop 2);
+  EvS false ASink (Exit RSink);
+  EvG GStopCall;
+  EvS false ACli (Joined RSrc);
+  EvS false ACli (Joined RSink);
+  EvS false ACli (Accept true);
+  EvG GStopRet;
+  EvG GStartCall;
+  EvS false ACli (DStoStart 2 true);
+  EvS false ACli (Accept true);
+  EvS false ACli (RMapEnter RdSink);
+  EvS false ACli (RMap RdSink []);
+  EvS false ACli (RUnmap RdSink 0);
+  EvS false ACli (Spawn RSink);
+  EvS false ASink (RMapEnter RdSink);
+  EvS false ASink (RMap RdSink []);
+  EvS false ASink (RUnmap RdSink 0);
+  EvS false ASink (RMapEnter RdSink);
+  EvS false ASink (RMap RdSink []);
+  EvS false ASink (RUnmap RdSink 0);
+  EvS false ACli (Spawn RFilt);
+  EvS false ACli (StartRefused RSrc);
+  EvS false ACli (Accept false);
+  EvS false ASink (RMapEnter RdSink);
+  EvS false ASink (RMap RdSink []);
+  EvS false ASink (RUnmap RdSink 0);
+  EvS false AFilt (Exit RFilt);
+  EvS false ACli (Joined RFilt);
+  EvS false ASink (DStoStop 2);
+  EvS false ASink (Exit RSink);
+  EvS false ACli (Joined RSink);
+  EvS false ACli (Accept true);
+  EvG (GStartRet false);
+  EvG (GState HAwait);
+  EvS false ACli (DSetCam 1);
+  EvS false ACli (DSetSto 2);
+  EvG (GConfigure true false 4 0);
+  EvG GStartCall;
+  EvS false ACli (DStoStart 2 true);
+  EvS false ACli (Accept true);
+  EvS false ACli (RMapEnter RdSink);
+  EvS false ACli (RMap RdSink []);
+  EvS false ACli (RUnmap RdSink 0);
+  EvS false ACli (Spawn RSink);
+  EvS false ASink (RMapEnter RdSink);
+  EvS false ACli (Spawn RFilt);
+  EvS false ACli (DCamStart 1 true 4);
+  EvS false ACli (Spawn RSrc);
+  EvG (GStartRet true);
+  EvS false ASrc (WMapEnter);
+  EvS false ASrc (WMap true);
+  EvS false ASink (RMap RdSink []);
+  EvS false ASink (RUnmap RdSink 0);
+  EvS false ASink (RMapEnter RdSink);
+  EvS false ASrc (DGetFrame 1 (Some (0, 4, 32212516913)));
+  EvS false ASrc (Commit true (mkF 4 0 0 32212516913));
+  EvS false ASrc (WMapEnter);
+  EvS false ASink (RMap RdSink [(mkF 4 0 0 32212516913)]);
+  EvS false ASink (DAppend 2 false [(mkF 4 0 0 32212516913)]);
+  EvS false ASink (CbStopSource);
+  EvS false ASrc (WMap true);
+  EvS false ASink (Accept false);
+  EvS false ASink (RUnmap RdSink 0);
+  EvS false ASink (RMapEnter RdSink);
+  EvS false ASrc (DGetFrame 1 (Some (1, 4, 32212516913)));
+  EvS false ASrc (Commit false (mkF 4 1 1 32212516913));
+  EvS false ASrc (CbStopFilter);
+  EvS false ASink (RMap RdSink [(mkF 4 0 0 32212516913)]);
+  EvS false ASink (RUnmap RdSink 1);
+  EvS false ASink (RMapEnter RdSink);
+  EvS false AFilt (Exit RFilt);
+  EvS false ASink (RMap RdSink []);
+  EvS false ASink (RUnmap RdSink 0);
+  EvS false ASink (Exit RSink);
+  EvS false ASrc (Joined RFilt);
+  EvS false ASrc (CbStopSink);
+  EvS false ASrc (DCamStop 1);
+  EvS false ASrc (Exit RSrc);
+  EvG GStopCall;
+  EvS false ACli (Joined RSrc);
+  EvS false ACli (Joined RSink);
+  EvS false ACli (Accept true);
+  EvG GStopRet;
+  EvG GStartCall;
+  EvS false ACli (StartRefused RSink);
+  EvS false ACli (Accept false);
+  EvS false ACli (Accept true);
+  EvG (GStartRet false);
+  EvG (GState HAwait);
+  EvS false ACli (DSetCam 1);
+  EvS false ACli (DSetSto 2);
+  EvG (GConfigure true false 4 0);
+  EvG GStartCall;
+  EvS false ACli (DStoStart 2 true);
+  EvS false ACli (Accept true);
+  EvS false ACli (RMapEnter RdSink);
+  EvS false ACli (RMap RdSink []);
+  EvS false ACli (RUnmap RdSink 0);
+  EvS false ACli (Spawn RSink);
+  EvS false ACli (Spawn RFilt);
+  EvS false ASink (RMapEnter RdSink);
+  EvS false ACli (DCamStart 1 true 6);
+  EvS false ACli (Spawn RSrc);
+  EvG (GStartRet true);
+  EvS false ASink (RMap RdSink []);
+  EvS false ASink (RUnmap RdSink 0);
+  EvS false ASink (RMapEnter RdSink);
+  EvS false ASrc (WMapEnter);
+  EvS false ASrc (WMap true);
+  EvS false ASink (RMap RdSink []);
+  EvS false ASink (RUnmap RdSink 0);
+  EvS false ASrc (DGetFrame 1 (Some (0, 6, 32212516913)));
+  EvS false ASink (RMapEnter RdSink);
+  EvS false ASink (RMap RdSink []);
+  EvS false ASink (RUnmap RdSink 0);
+  EvS false ASrc (Commit true (mkF 6 0 0 32212516913));
+  EvS false ASrc (WMapEnter);
+  EvS false ASrc (WMap true);
+  EvS false ASink (RMapEnter RdSink);
+  EvS false ASink (RMap RdSink [(mkF 6 0 0 32212516913)]);
+  EvS false ASink (DAppend 2 true [(mkF 6 0 0 32212516913)]);
+  EvS false ASink (RUnmap RdSink 1);
+  EvS false ASink (RMapEnter RdSink);
+  EvS false ASink (RMap RdSink []);
+  EvS false ASink (RUnmap RdSink 0);
+  EvS false ASrc (DGetFrame 1 (Some (1, 6, 32212516913)));
+  EvS false ASink (RMapEnter RdSink);
+  EvS false ASink (RMap RdSink []);
+  EvS false ASink (RUnmap RdSink 0);
+  EvS false ASink (RMapEnter RdSink);
+  EvS false ASink (RMap RdSink []);
+  EvS false ASink (RUnmap RdSink 0);
+  EvS false ASink (RMapEnter RdSink);
+  EvS false ASink (RMap RdSink []);
+  EvS false ASink (RUnmap RdSink 0);
+  EvS false ASink (RMapEnter RdSink);
+  EvS false ASink (RMap RdSink []);
+  EvS false ASink (RUnmap RdSink 0);
+  EvS false ASrc (Commit true (mkF 6 1 1 32212516913));
+  EvS false ASrc (WMapEnter);
+  EvS false ASink (RMapEnter RdSink);
+  EvS false ASink (RMap RdSink [(mkF 6 1 1 32212516913)]);
+  EvS false ASrc (WMap true);
+  EvS false ASrc (DGetFrame 1 (Some (2, 6, 32212516913)));
+  EvS false ASink (DAppend 2 true [(mkF 6 1 1 32212516913)]);
+  EvS false ASink (RUnmap RdSink 1);
+  EvS false ASink (RMapEnter RdSink);
+  EvS false ASink (RMap RdSink []);
+  EvS false ASink (RUnmap RdSink 0);
+  EvS false ASrc (Commit true (mkF 6 2 2 32212516913));
+  EvS false ASrc (WMapEnter);
+  EvS false ASrc (WMap true);
+  EvS false ASink (RMapEnter RdSink);
+  EvS false ASink (RMap RdSink [(mkF 6 2 2 32212516913)]);
+  EvS false ASink (DAppend 2 true [(mkF 6 2 2 32212516913)]);
+  EvS false ASink (RUnmap RdSink 1);
+  EvS false ASink (RMapEnter RdSink);
+  EvS false ASrc (DGetFrame 1 (Some (3, 6, 32212516913)));
+  EvS false ASrc (Commit true (mkF 6 3 3 32212516913));
+  EvS false ASrc (CbStopFilter);
+  EvS false ASink (RMap RdSink [(mkF 6 3 3 32212516913)]);
+  EvS false ASink (DAppend 2 true [(mkF 6 3 3 32212516913)]);
+  EvS false ASink (RUnmap RdSink 1);
+  EvS false ASink (RMapEnter RdSink);
+  EvS false ASink (RMap RdSink []);
+  EvS false ASink (RUnmap RdSink 0);
+  EvS false ASink (RMapEnter RdSink);
+  EvS false ASink (RMap RdSink []);
+  EvS false ASink (RUnmap RdSink 0);
+  EvS false ASink (RMapEnter RdSink);
+  EvS false ASink (RMap RdSink []);
+  EvS false ASink (RUnmap RdSink 0);
+  EvS false ASink (RMapEnter RdSink);
+  EvS false ASink (RMap RdSink []);
+  EvS false ASink (RUnmap RdSink 0);
+  EvS false ASink (RMapEnter RdSink);
+  EvS false AFilt (Exit RFilt);
+  EvS false ASrc (Joined RFilt);
+  EvS false ASrc (CbStopSink);
+  EvS false ASink (RMap RdSink []);
+  EvS false ASink (RUnmap RdSink 0);
+  EvS false ASink (RMapEnter RdSink);
+  EvS false ASrc (DCamStop 1);
+  EvS false ASrc (Exit RSrc);
+  EvS false ASink (RMap RdSink []);
+  EvS false ASink (RUnmap RdSink 0);
+  EvS false ASink (DStoStop 2);
+  EvS false ASink (Exit RSink);
+  EvG GStopCall;
+  EvS false ACli (Joined RSrc);
+  EvS false ACli (Joined RSink);
+  EvS false ACli (Accept true);
+  EvG GStopRet;
+  EvG (GState HArmed);
+  EvG GShutdownCall;
+  EvS false ACli (Accept false);
+  EvS false ACli (Accept true);
+  EvS false ACli (DCloseCam 1);
+  EvS false ACli (DCloseSto 2);
+  EvG GShutdownRet
+]%N.
+
 Definition after (tr : list event) (n : nat) : option sys := accepts init_sys (firstn n tr).
 Definition before_second_stop : nat := 236.
 Definition before_abort_return : nat := 144.
@@ -744,3 +1029,5 @@ Definition before_second_stop_f : nat := 121.
 Definition at_failing_append : nat := 43.
 Definition after_abort_refusal : nat := 117.   (* tr_abort: the first 117 events, i.e. up to and including the client's Accept false *)
 Definition before_start_refused : nat := 66.
+Definition before_src_refused : nat := 75.     (* tr_unarmed: the camera failed in the first acquisition, no configure since *)
+Definition before_sink_refused : nat := 138.   (* tr_unarmed: the storage failed in the second acquisition, no configure since *)
